@@ -3,11 +3,6 @@
 package main
 
 import (
-	"bufio"
-	"bytes"
-	"fmt"
-	"os"
-	"os/exec"
 	"strings"
 )
 
@@ -18,54 +13,6 @@ import (
 //   after-history  : the same bytes after a random history of other requests
 // The Lean side (Props/C02.lean) carries map-order independence of the model functions that range
 // over Go maps, the site list regenerated from the source, and "no clock / global rand / goroutines".
-
-type stdioServer struct {
-	cmd *exec.Cmd
-	in  *bufio.Writer
-	out *bufio.Reader
-}
-
-func startStdio() (*stdioServer, error) {
-	bin := os.Getenv("RDM_HARNESS_BIN")
-	if bin == "" {
-		bin = os.Args[0]
-	}
-	cmd := exec.Command(bin, "serve")
-	cmd.Env = append(os.Environ(), "RDM_VERIF=1")
-	stdin, err := cmd.StdinPipe()
-	if err != nil {
-		return nil, err
-	}
-	stdout, err := cmd.StdoutPipe()
-	if err != nil {
-		return nil, err
-	}
-	if err := cmd.Start(); err != nil {
-		return nil, err
-	}
-	return &stdioServer{cmd, bufio.NewWriter(stdin), bufio.NewReaderSize(stdout, 1<<24)}, nil
-}
-
-func (s *stdioServer) ask(body []byte) (int, []byte, error) {
-	s.in.Write(bytes.ReplaceAll(body, []byte("\n"), []byte(" ")))
-	s.in.WriteByte('\n')
-	if err := s.in.Flush(); err != nil {
-		return 0, nil, err
-	}
-	line, err := s.out.ReadBytes('\n')
-	if err != nil {
-		return 0, nil, err
-	}
-	sp := bytes.IndexByte(line, ' ')
-	var st int
-	fmt.Sscanf(string(line[:sp]), "%d", &st)
-	return st, bytes.TrimRight(line[sp+1:], "\n"), nil
-}
-
-func (s *stdioServer) stop() {
-	s.cmd.Process.Kill()
-	s.cmd.Wait()
-}
 
 func init() {
 	props["C02"] = func(o *Out, r *Rng, n int, thorough bool) {
@@ -79,6 +26,22 @@ func init() {
 				q.Body["biases"] = []interface{}{J{"name": "noSuchBias", "props": J{}}}
 			}
 			c02Invalidate(r, q)
+			if r.chance(0.06) {
+				// the Choquet integral collects an alternative's values by ranging over a map and sorts them: values
+				// that are unequal but closer than the tie tolerance (1e-5) must still come out in one order
+				q = genRequest(r, ReqOpts{Methods: []string{"choquetIntegral"}, Prob: ProbOpts{MinCrit: 3, MaxCrit: 4}})
+				for _, a := range q.Body["knownAlternatives"].([]interface{}) {
+					vals := a.(J)["criteria"].(J)
+					base := float64(r.Intn(5))
+					for i, k := range r.shuffled(sortedJKeys(vals)) {
+						vals[k] = base + float64(i)*3e-6
+					}
+				}
+				for _, cj := range q.Body["criteria"].([]interface{}) {
+					delete(cj.(J), "valuesRange")
+				}
+				o.count("choquet-near-ties")
+			}
 			reqs = append(reqs, q)
 		}
 		verdict := func(st int, b []byte) string {
